@@ -459,6 +459,8 @@ pub fn parse(c: &[u64]) -> Option<(usize, Vec<(bool, u64)>, u64, Vec<Vec<u64>>)>
 }
 
 pub struct Gen {
+    /// scripted ops played first (directed scenarios: both connections of a peer, promotion)
+    pub script: Vec<Vec<u64>>,
     pub rng: Rng,
     pub timed: bool,
     pub third: bool,
@@ -471,6 +473,14 @@ pub struct Gen {
 
 impl Gen {
     fn next(&mut self, w: &mut World) -> Vec<u64> {
+        if !self.script.is_empty() {
+            let op = self.script.remove(0);
+            self.elapsed += op[0];
+            if op[1] == 1 {
+                w.next_conn = w.next_conn.max(op[3] + 1);
+            }
+            return op;
+        }
         let r = &mut self.rng;
         let dt = if self.timed && self.elapsed < 3200 { r.pick(&[0u64, 0, 200, 200, 200, 400, 600]) } else { 0 };
         self.elapsed += dt;
@@ -627,7 +637,26 @@ pub fn gen_one(rt: &tokio::runtime::Runtime, mut rng: Rng, timed: bool, thorough
     let third = !timed && rng.chance(8);
     let nops = if timed { rng.range(7, 15) } else if thorough { rng.range(10, 120) } else { rng.range(8, 60) } as usize;
     let npeers = rng.range(1, 2);
-    let g = Gen { rng: rng.fork(), timed, third, npeers, nops, nsvc, elapsed: 0, burst: 0 };
+    // a third of the timed cases: two overlapping connections of peer 0, activity of one service on
+    // one of them, the primary closes first (promotion), then the services idle out one by one
+    let mut script: Vec<Vec<u64>> = Vec::new();
+    if timed && rng.chance(35) {
+        script.push(vec![0, 1, 0, 1]);
+        script.push(vec![rng.pick(&[0u64, 200]), 1, 0, 2]);
+        match rng.below(3) {
+            0 => script.push(vec![rng.pick(&[0u64, 200]), 3, rng.below(nsvc), 0, 2]),
+            1 => script.push(vec![rng.pick(&[0u64, 200]), 7, rng.below(nsvc), 0]),
+            _ => {}
+        }
+        script.push(vec![rng.pick(&[0u64, 200, 200]), 2, 0, 1]);
+        if rng.chance(50) {
+            script.push(vec![rng.pick(&[0u64, 200]), 7, rng.below(nsvc), 0]);
+        }
+        script.push(vec![rng.pick(&[200u64, 400]), 15, 2]);
+        script.push(vec![rng.pick(&[200u64, 400]), 15, 2]);
+    }
+    let nops = nops.max(script.len() + 3);
+    let g = Gen { script, rng: rng.fork(), timed, third, npeers, nops, nsvc, elapsed: 0, burst: 0 };
     let (case, trace, ok) = rt.block_on(tokio::task::unconstrained(exec(cap, &cfg, n0, Src::Gen(g))));
     if ok {
         return (case, trace);
